@@ -119,12 +119,23 @@ def a_matrix_model(prog):
                 if len(defs) != 1:
                     return None, sy, "the closure's value has %d definitions on one path" % len(defs)
                 v = strip(defs[0])
-                # unwrap_or(copied(get(TABLE, idx)), 0.0)
+                # unwrap_or(copied(get(TABLE, idx)), 0.0)   or   match TABLE.get(idx) { Some(&f) => f, None => 0.0 }
                 ok = v[0] == "call" and short(v[1]) == "Option::<T>::unwrap_or" and len(v[2]) == 2
                 dflt = funeval.ev_value(prog, sy, v[2][1], {}) if ok else None
                 g = strip(v[2][0]) if ok else None
                 while g is not None and g[0] == "call" and short(g[1]) in ("Option::<&T>::copied", "Option::<&T>::cloned") and g[2]:
                     g = strip(g[2][0])
+                if not ok:
+                    gets = [(bb_, t_) for bb_, t_ in body.calls() if short(cname(t_)) == "<impl [T]>::get" and bb_ in path[1]]
+                    if len(gets) == 1:
+                        gc = strip(an.terms.call_term(gets[0][1], gets[0][0]))
+                        gname = sy.name(gc)
+                        tags = [a_[0] for a_ in ats if a_[0] in ("some", "none") and a_[1] == gname]
+                        if tags == ["some"] and v[0] == "field" and v[2] == 0 and strip(v[1])[0] == "downcast" and strip(strip(v[1])[1]) == gc:
+                            ok, dflt, g = True, 0.0, gc
+                        elif tags == ["none"] and funeval.ev_value(prog, sy, v, {}) == 0.0:
+                            ok, dflt, g = True, 0.0, gc
+                        ats = [a_ for a_ in ats if not (a_[0] in ("some", "none") and a_[1] == gname)]
                 if not (ok and dflt == 0.0 and g[0] == "call" and short(g[1]) == "<impl [T]>::get" and len(g[2]) == 2):
                     return None, sy, "the element is not `TABLE.get(index).copied().unwrap_or(0.0)`: %s" % sy.name(defs[0])[:160]
                 idx = sy.poly(g[2][1])
@@ -256,6 +267,25 @@ def run(prog, tier, res):
         nm = sy.name(an.terms.operand(tp["args"][0]))
         if ("arg1.1[%s][" % colv) in nm:
             pd_ok = True
+    if not pd_ok:
+        # the per-row deconvolution may sit in a closure (`array::from_fn(|row| ..)`): name its argument with the
+        # closure's captures substituted by what avalanches() passes in
+        from ..guards import closure_ret as _cr, subst_upvars as _su
+        PD = "alpha_g_physics::deconvolution::pads::pad_deconvolution"
+        for bi_, si_, st_ in b.stmts():
+            if st_["k"] == "assign" and st_["rv"]["k"] == "aggr" and st_["rv"].get("ak") == "closure":
+                an.terms._pos = (bi_, si_)
+                cterm = an.terms.rvalue(st_["rv"])
+                ci_ = closure_info_(prog, an, cterm)
+                if not ci_:
+                    continue
+                cb_, cap_ = ci_
+                can_ = analysis(prog, cb_)
+                for bbp, tp in cb_.calls():
+                    if cname(tp) == PD:
+                        nm = sy.name(_su(can_.terms.operand(tp["args"][0]), cap_))
+                        if ("arg1.1[%s][" % colv) in nm:
+                            pd_ok = True
     if pd_ok:
         res.hit(R3)
     else:
@@ -419,7 +449,8 @@ def run(prog, tier, res):
         def index_at(i, j):
             env = {"arg2": i, "arg3": j}
             hit = [eval_poly(sym_a, idx, env) for ats, idx, tab in model if funeval.holds(sym_a, ats, env)]
-            return int(hit[0]) if len(hit) == 1 and hit[0] is not None else None
+            vals_ = set(hit)
+            return int(hit[0]) if len(vals_) == 1 and hit[0] is not None else None
         symmetric = all(index_at(i, j) is not None and index_at(i, j) == index_at(j, i) for i, j in pts)
         res.oblige(toeplitz, "symbolic-shift")
         res.oblige(symmetric, "finite-eval")
@@ -512,6 +543,8 @@ def run(prog, tier, res):
                 continue
             if d0[0] == "discr" or (d0[0] == "bin" and any(x[0] == "var" for x in walk(d0))):
                 continue        # Some(..) tests of first()/last(), the scan loop's exit condition
+            if d0[0] == "var" and bc.locals[d0[1]]["ty"].get("k") == "bool":
+                continue        # a named boolean (`let starts = matches!(..)`): its defining guards are unfolded by atoms_at
             others.append(txt[:100])
         want_len = [n >= 2 for n in range(0, 7)]
         if len_ok is None:
